@@ -51,6 +51,14 @@ def handle : List String → String
     match (decList joins).mapM pj with
     | some js => "impl=" ++ encList ((aliasInJoin (decNatList aliases) js).map encBool)
     | none => "bad-op"
+  | ["tots", scale] =>
+    let sc := decOptNat scale
+    let fn := match unixToTimeFn sc with | .toTimestamp => "to_timestamp" | .epochMs => "epoch_ms" | .makeTimestamp => "make_timestamp"
+    s!"fn={fn}\ttzaware={encBool (toTimestampTzAware true sc)}"
+  | ["decdesc", p, s] =>
+    match p.toNat?, s.toNat? with
+    | some p, some s => let r := parseDecimalType (renderDecimalType p s); s!"precision={r.1}\tscale={r.2}"
+    | _, _ => "bad-op"
   | ["tonum", fn, args] =>
     match (decList args).mapM parseNArg with
     | none => "bad-op"
